@@ -236,6 +236,12 @@ def nls_family(env):
         z0 = T.tensor(0) if env.sym else T.tensor(0., dtype=xs.dtype)
         env.eq(f't* = 0 given as a {form}, clock at 3: affine model reproduces f(x*, u*, 0)', s2.A @ xs + s2.B @ us + s2.c1, f(xs, us, z0))
         env.eq(f't* = 0 given as a {form}, clock at 3: affine model reproduces g(x*, u*, 0)', s2.C @ xs + s2.D @ us + s2.c2, g(xs, us, z0))
+    # a FRACTIONAL reference time (t* = step * dt, as LQR and the filters pass it) is used as given, not truncated to the integer clock
+    half = T.tensor(Q(5, 2)) if env.sym else T.tensor(2.5, dtype=xs.dtype)
+    s3 = Sys(); s3.systime = 1
+    s3.set_refpoint(xs, us, half)
+    env.eq('t* = 5/2: affine model reproduces f(x*, u*, 5/2)', s3.A @ xs + s3.B @ us + s3.c1, f(xs, us, half))
+    env.eq('t* = 5/2: affine model reproduces g(x*, u*, 5/2)', s3.C @ xs + s3.D @ us + s3.c2, g(xs, us, half))
 
 
 @bounded('C15.NLS.scaling', functions=[f'{DYN}:NLS.A', f'{DYN}:NLS.B', f'{DYN}:NLS.C', f'{DYN}:NLS.D', f'{DYN}:NLS.set_refpoint'])
@@ -273,6 +279,33 @@ def nls_scaling(rng, tier):
     for f_ in fails: uniq.setdefault((f_['clause'], f_['signature']), f_)
     return dict(evaluations=evals, distinct_nontrivial=evals, rule='random bilinear/quadratic 2-state systems with row scales 1e9/1e-8 (float64) and 1e3/1e-5 (float32)',
                 bound=f'{N} systems per dtype', failures=list(uniq.values())[:6], samples=samples)
+
+
+@bounded('C15.clock_range', functions=[f'{DYN}:System.__init__', f'{DYN}:System.systime', f'{DYN}:System.forward_hook', f'{DYN}:System.reset'])
+def clock_range(rng, tier):
+    """real code: the step counter holds every step count a 64-bit counter holds (millisecond stamps, very long runs): assignment, stepping
+    and reset around 2^31 and 2^40 keep the exact value (the symbolic contracts treat machine integers as mathematical integers)"""
+    import torch, pypose as pp
+    fails = []; evals = 0
+    d = torch.float64
+    A_ = torch.eye(2, dtype=d); B_ = torch.zeros(2, 1, dtype=d); C_ = torch.eye(2, dtype=d); D_ = torch.zeros(2, 1, dtype=d)
+    for big in (2 ** 31 - 1, 2 ** 31, 2 ** 31 + 5, 2 ** 40 + 3):
+        for how in ('assign int', 'assign tensor', 'reset'):
+            s_ = pp.module.LTI(A_, B_, C_, D_)
+            try:
+                if how == 'assign int': s_.systime = big
+                elif how == 'assign tensor': s_.systime = torch.tensor(big, dtype=torch.int64)
+                else: s_.reset(big)
+                evals += 1
+                if int(s_.systime) != big:
+                    fails.append(dict(clause='clock_keeps_large_step_counts', signature=f'{how}/{big}', got=int(s_.systime))); continue
+                s_(torch.zeros(2, dtype=d), torch.zeros(1, dtype=d))
+                if int(s_.systime) != big + 1:
+                    fails.append(dict(clause='clock_keeps_large_step_counts', signature=f'step after {how}/{big}', got=int(s_.systime)))
+            except Exception as e:
+                fails.append(dict(clause='clock_raises', signature=f'{how}/{big}', error=f'{type(e).__name__}: {e}'[:120]))
+    return dict(evaluations=evals, distinct_nontrivial=evals, rule='step counts 2^31-1, 2^31, 2^31+5, 2^40+3 by assignment (int / tensor) and reset, then one step',
+                bound='4 values x 3 ways', failures=fails[:6], samples=[])
 
 
 @obligation('C15.canary.observation_after_transition', functions=[f'{DYN}:LTI.observation'], canary=True)
